@@ -91,11 +91,17 @@ def _run_case(case, ctx):
         form = gen.choice(rs, ["tuple", "list", "wrapper"])
         opts = {}
         if algo == "constrained_parafac":
-            opts = {"non_negative": True} if rs.rand() < 0.5 else {"l2_square_reg": 0.01}
+            # constraints whose proximal operator is not the identity on the supplied factors included: a supplied decomposition is
+            # documented as taken as it is (no projection of the start), whatever its weights
+            opts = gen.choice(rs, [{"non_negative": True}, {"non_negative": True}, {"l2_square_reg": 0.01}, {"l1_reg": 0.1}, {"normalize": True}, {"l2_reg": 0.05}])
             if "non_negative" in opts:
                 fs = [np.abs(f) for f in fs]
 
+        none_weights = bool(wk == "ones" and rs.rand() < 0.5)   # unit weights spelled as None
+
         def mk_init(w_, fs_):
+            if none_weights and w_ is not None and np.all(w_ == 1):
+                w_ = None
             if form == "tuple":
                 return (None if w_ is None else w_.copy(), [f.copy() for f in fs_])
             if form == "list":
